@@ -19,7 +19,7 @@ from ..model import AnalysisError
 from ..tables import routing as T
 from ..tables import rewards as TR
 
-FLOOR = 113
+FLOOR = 114
 EXPLANATION = (
     "Static analysis of all _get_reward implementations (21 env classes, every Python-level mode) and of the step-side "
     "accumulators they read: the return value's polynomial normal form must consist of exactly the reference objective's "
